@@ -20,6 +20,29 @@ func formatPackageName(pkg string) string {
 	return strings.ToLower(rgx.ReplaceAllString(pkg, ""))
 }
 
+// formatImportAlias gives the name under which the package of a schema is imported.
+// The generated code calls the packages of the standard library it relies on by their
+// name (`reflect.DeepEqual()`, `errors.New()`, …): a schema package that has the name
+// of one of them is imported under another one, so that both can be told apart.
+func formatImportAlias(pkg string) string {
+	if isImportedByGeneratedCode(formatPackageName(pkg)) {
+		return pkg + "schema"
+	}
+
+	return pkg
+}
+
+// isImportedByGeneratedCode tells whether a name is the one of a package of the
+// standard library that the generated code imports.
+func isImportedByGeneratedCode(alias string) bool {
+	switch alias {
+	case "json", "errors", "fmt", "math", "reflect", "strconv", "strings", "time":
+		return true
+	}
+
+	return false
+}
+
 func formatFileName(name string) string {
 	return strings.ToLower(name)
 }
